@@ -432,6 +432,17 @@ func cmdCheck(args []string) int {
 	knownSeen := map[string]bool{}
 	nviol := 0
 	jobs := c.Jobs(tier)
+	if f := os.Getenv("VERIF_JOBS"); f != "" {
+		// debugging aid: run only the jobs whose name matches
+		re := regexp.MustCompile(f)
+		var keep []JobDef
+		for _, j := range jobs {
+			if re.MatchString(j.Name) {
+				keep = append(keep, j)
+			}
+		}
+		jobs = keep
+	}
 	var pend []pendingNative
 	os.MkdirAll(filepath.Join(outRoot(), "replay"), 0o755)
 	for _, j := range jobs {
